@@ -233,3 +233,12 @@ func vCounterGraphs() (int, []string) {
 //@   ensures[fallback] desc.Fallback == ite(old(desc.Fallback) == "", src.Fallback, old(desc.Fallback))
 //@   ensures[pad] desc.Pad == ite(old(desc.Pad.IsNone()), src.Pad, old(desc.Pad))
 //@   ensures[prefix-suffix] desc.Prefix == ite(old(desc.Prefix.IsNone()), src.Prefix, old(desc.Prefix)) && desc.Suffix == ite(old(desc.Suffix.IsNone()), src.Suffix, old(desc.Suffix))
+
+// css-counter-styles-3 §3.1.7: "if one or more @counter-style rules form a cycle with their extends values, all
+// of the counter styles participating in the cycle must be treated as if they were extending the decimal counter
+// style instead": the descriptors of an extended style are merged only when that style does not lead back to a
+// style already visited.
+//@ func (CounterStyle).resolveCounter
+//@   props C19
+//@   modifies anything
+//@   call merge#1 assert[not-a-member-of-an-extends-cycle] arg1 == extendedCounter && (extends == "" || !haskey(previousTypes, system))
